@@ -133,10 +133,14 @@ def _connected_without(W, u, v, w):
     return bool(seen[v])
 
 
-def is_spanning_tree(pred, root=0):
-    """pred[q] = parent (-1 for the root). Every node reaches root without cycling, exactly one root."""
+def is_spanning_tree(pred, root=None):
+    """pred[q] = parent (-1 for the root). Every node reaches the root without cycling, exactly one root (wherever it is)."""
     n = len(pred)
-    if sum(1 for p in pred if p == -1) != 1 or pred[root] != -1:
+    if sum(1 for p in pred if p == -1) != 1:
+        return False
+    if root is None:
+        root = [q for q in range(n) if pred[q] == -1][0]
+    if pred[root] != -1:
         return False
     for q in range(n):
         steps, a = 0, q
